@@ -1,7 +1,6 @@
 //! C13 — fast-forward bytes and tokens are genuinely forced and change nothing.
 
 use crate::engine::{factory_ext, is_limit_error, matcher, short_err, GrammarSpec};
-use crate::gen::any_grammar;
 use crate::runner::{Ctx, Prop, Tier, R};
 use crate::util::{esc, frac, truncate_str, Fnv};
 use crate::vocab::{Vocab, VocabSpec};
@@ -137,7 +136,7 @@ impl Prop for C13 {
     }
     fn strategy(&self, tier: Tier) -> BoxedStrategy<Case> {
         let bpe_n = tier.pick(1024usize, 4096usize);
-        let g = prop_oneof![2 => forced_rich_grammar(), 1 => crate::js::schema_grammar(crate::js::Profile::Full), 1 => any_grammar()];
+        let g = prop_oneof![2 => forced_rich_grammar(), 1 => crate::js::schema_grammar(crate::js::Profile::Full), 1 => crate::gen::any_grammar_core_ext()];
         g.prop_flat_map(move |g| {
             let voc = prop_oneof![3 => syn_vocab_strategy(g.clone(), true), 2 => Just(VocabSpec::bpe(bpe_n, true))];
             (Just(g), voc, steps(25), proptest::collection::vec(0u8..PROMPT_POOL.len() as u8, 0..5))
